@@ -8,6 +8,8 @@ open Amoco.Struct.Props
 #print axioms pack_unpack
 #print axioms pack_unpack_exact
 #print axioms unpack_len_eq_size
+#print axioms unpack_reads_layout
+#print axioms pack_unpack_fixed
 #print axioms uleb_roundtrip
 #print axioms sleb_roundtrip
 #print axioms uleb_canonical
